@@ -26,6 +26,8 @@ func init() {
 				Doc: "No compressor is lost when a panic unwinds: the deferred Close of the active writer is registered before each install (same obligation as C07.e)."},
 			{ID: "C10.e", Template: "T-ORDER", Required: true, Run: ruleC10e,
 				Doc: "The default recover handler calls WriteHeader(500) before Write, both on the writer it was given."},
+			{ID: "C10.f", Template: "T-SINK", Required: true, Run: ruleNoDeclaredLength,
+				Doc: "'A complete, decodable body': the recover handler (and every other framework writer) declares no Content-Length, because the writer it is given may be encoding (same obligations as C07.h)."},
 		},
 	})
 }
